@@ -18,6 +18,7 @@ THEOREMS = [
     "convert_trajectory_partial",
     "convert_trajectory_h_zero",
     "convert_step_partial",
+    "convert_diag_sweeps_agree",
     "witnessMoves_lawful",
     "witness_gate_off",
     "witness_diverges",
